@@ -11,7 +11,7 @@ Call(t, args, kw) == [op |-> "call", tgt |-> t, args |-> args, kw |-> kw]
 UMap == <<<<"my.op", "U.gelu">>, <<"F.silu", "my.silu">>>>       \* a user op mapped to U.gelu; a built-in overridden by the user
 EmptyS == [G |-> [nodes |-> <<>>, order |-> <<>>], pc |-> "none", cur |-> 0, deps |-> [x \in {} |-> {}], rmeta |-> [x \in {} |-> 0], umap |-> <<>>]
 Init == /\ G = [nodes |-> <<PH("x"), PH("w")>>, order |-> <<1, 2>>] /\ phase = "gen" /\ s = EmptyS /\ G0 = G
-Unary == {"F.gelu", "torch.tanh", "F.softmax", "my.op", "F.silu"}
+Unary == {"F.gelu", "torch.tanh", "torch.softmax", "my.op", "F.silu"}      \* torch.softmax: a spelling that is not F.softmax (both are softmax)
 GenAdds == {"op.add", "torch.add", "m:add_"}      \* one representative per family of add forms (operator / function / method)
 Gen == /\ phase = "gen"
        /\ LET n == Len(G.nodes) IN
